@@ -1874,6 +1874,8 @@ func (h *fsmHandler) sendMessageloop(ctx context.Context, conn net.Conn, stateRe
 				options := &bgp.MarshallingOption{
 					AddPath:         fsm.familyMap.Load().(map[bgp.Family]bgp.BGPAddPathMode),
 					ExtendedMessage: fsm.extendedMessage.Load(),
+					// the packer has to size the attributes as send() will emit them
+					Use2ByteAS: fsm.twoByteAsTrans,
 				}
 				verifYield("send", fsm)
 				for _, msg := range table.CreateUpdateMsgFromPaths(paths, options) {
